@@ -5,6 +5,7 @@ package main
 // The log is validated by Trace_PongoApi.tla (which has no action for those three).
 
 import (
+	"sort"
 	"bufio"
 	"encoding/json"
 	"fmt"
@@ -35,6 +36,8 @@ func universe() []pongo2.Context {
 	a["i8s"] = []int8{1, 2}
 	a["strs"] = []string{"b", "a"}
 	a["tm"] = time.Date(2021, 2, 3, 4, 5, 6, 0, time.UTC)
+	a["selfname"] = "/lazyself" // names of templates that include each other by computed name
+	a["laname"] = "/la"
 	var nilIface interface{}
 	var nilMap map[string]int
 	var nilSlice []string
@@ -48,6 +51,8 @@ func universe() []pongo2.Context {
 	}
 	// the same names with hostile values
 	b["x"] = "\xff\xfe<\x00\x01"
+	b["selfname"] = "/la"
+	b["laname"] = "/lazyself"
 	b["l"] = [3]float64{math.NaN(), math.Inf(1), math.Inf(-1)}
 	b["m"] = map[keyT]int{{1}: 1}
 	b["rint"] = int64(math.MinInt64)
@@ -91,7 +96,20 @@ var apiFiles = map[string]string{
 	"/base": "B{% block b %}bb{% endblock %}{% block c %}{% block b2 %}{% endblock %}{% endblock %}",
 	"/lib":  "{% macro lm(a, b=2) export %}<{{ a }}{{ b }}>{% endmacro %}",
 	"/self": `S{% include "/self" %}`,
+	// templates that refer to each other by computed name: the cycle exists at execution time only
+	"/lazyself": `L{% include selfname %}`,
+	"/la":       `A{% include lbname|default:"/lb" %}`,
+	"/lb":       `B{% include laname %}`,
 }
+
+var apiFileNames = func() []string {
+	var ns []string
+	for n := range apiFiles {
+		ns = append(ns, n)
+	}
+	sort.Strings(ns)
+	return ns
+}()
 
 func cmdC01Names(args []string) {
 	rep := newReport("c01-names")
@@ -131,6 +149,21 @@ func cmdC01Worker(args []string) {
 			defer close(done)
 			ev("Source", i)
 			set := pongo2.NewSet("c01", newMemLoader("c01", apiFiles))
+			if i%2 == 1 && (strings.Contains(src, "include") || strings.Contains(src, "extends") || strings.Contains(src, "import") || strings.Contains(src, "ssi")) {
+				// the set's earlier history: every other template of the set has already been fetched through the cache
+				for _, n := range apiFileNames {
+					wo := protect(func() (string, error) { _, e := set.FromCache(n); return "", e })
+					switch wo.class() {
+					case "panic":
+						ev("Panic", i)
+						return
+					case "err":
+						ev("WarmErr", i)
+					default:
+						ev("WarmOk", i)
+					}
+				}
+			}
 			tpl, o := compileString(set, src)
 			switch o.class() {
 			case "panic":
